@@ -66,6 +66,10 @@ def run(ck):
         g = dict(g); g["orc"] = 0
         g["calls"] = [dict(pcall(a, "list", extra=False), allot=True) for a in COVERS]
         groups.append(g)
+    for g in gen.near_miss_families(ck.rng, 60 if q else 600, giga=True):        # bin sizes up to 1e9, sums one unit short: sums-only outputs vs the bins
+        g = dict(g); g["orc"] = 0
+        g["calls"] = [dict(pcall(a, "list", extra=False), allot=True) for a in COVERS]
+        groups.append(g)
     for g in scope.q_scope(ck, 3, 8, [8]):
         if max(g["vals"]) <= g["C"]:
             g = dict(g); g["den"] = 8; g["orc"] = 0
